@@ -254,6 +254,14 @@ int main(int argc, char **argv)
 				const unsigned nm(m2->move_legal(t2.get()) + m2->Header()->move_legal(t2->Header()) + m2->Trailer()->move_legal(t2->Trailer()));
 				os << " moved=" << enc(t2.get());
 			}
+			else if (w.size() == 3 && w[0] == "dclone")		// decode, re-encode, clone the decoded message, encode the clone
+			{
+				std::string raw; unhex(w[2], raw);
+				std::unique_ptr<Message> d(Message::factory(C(), raw, false, w[1] == "p"));
+				os << "dec=" << dump_msg(d.get()) << " re=" << enc(d.get());
+				std::unique_ptr<Message> c(d->clone());
+				os << " clone=" << enc(c.get());
+			}
 			else os << "bad-op";
 		}
 		catch (const std::exception& e) { os << (os.str().empty() ? "" : " ") << exname(e); }
